@@ -152,7 +152,7 @@ class ABC(Optimizer):
         # Iterate through all food sources
         for i, agent in enumerate(agents):
             # Gathering a random source to be used
-            source = int(r.generate_uniform_random_number(0, len(agents)))
+            source = int(r.generate_uniform_random_number(0, len(agents))[0])
 
             # Measuring food source location
             trials[i] = self._evaluate_location(
@@ -191,7 +191,7 @@ class ABC(Optimizer):
 
                     # Gathers a random source to be used
                     source = int(
-                        r.generate_uniform_random_number(0, len(agents)))
+                        r.generate_uniform_random_number(0, len(agents))[0])
 
                     # Evaluate its location
                     trials[i] = self._evaluate_location(
